@@ -729,9 +729,67 @@ def replay_obj(case, r, info, exe):
     return obj
 
 
+def compass_spec(x0, y0, x1, y1):
+    """the declarative statements of C14_cardinalDirection_spec / C14_compassDirection_spec, on exact rationals"""
+    dx, dy = Fraction(x1) - Fraction(x0), Fraction(y1) - Fraction(y0)
+    card = (0 if dx > 0 else 2) if abs(dy) <= abs(dx) else (1 if dy > 0 else 3)
+    if dx == 0 and dy == 0:
+        comp = -1                       # contract: std::runtime_error (not translated, see Dialect/Compass.v)
+    elif dx == 0:
+        comp = 1 if dy > 0 else 3
+    elif dy == 0:
+        comp = 0 if dx > 0 else 2
+    elif dx > 0:
+        comp = 4 if dy > 0 else 7
+    else:
+        comp = 5 if dy > 0 else 6
+    return card, comp
+
+
+def compass_sweep(res, tier):
+    """search for a failing input of the Compass theorems: the compiled Compass::cardinalDirection / compassDirection on a
+    lattice of point pairs (3 base points x 3 scales x {-R..R}^2 offsets) against the theorem statements"""
+    try:
+        exe = C.build_harness('c14_compass', C.LIBS, 'plain')
+    except RuntimeError as e:
+        res.violation({'what': 'the Compass harness does not build from the working tree', 'error': str(e)[-2000:]}, no_input=True)
+        return 1
+    R = 4 if tier == 'quick' else 12
+    rc, out, err, dt = C.sh([exe, str(R)], timeout=300)
+    n = bad = 0
+    anti = 0
+    table = {}
+    for ln in out.split('\n'):
+        f = ln.split()
+        if len(f) != 6:
+            continue
+        try:
+            x0, y0, x1, y1 = (float(v) for v in f[:4])
+            card, comp = int(f[4]), int(f[5])
+        except ValueError:
+            continue
+        n += 1
+        table[(x0, y0, x1, y1)] = (card, comp)
+        want = compass_spec(x0, y0, x1, y1)
+        if (card, comp) != want and bad < 3:
+            bad += 1
+            res.violation({'what': 'Compass::cardinalDirection / compassDirection of the compiled library differs from the statement of '
+                                   'C14_cardinalDirection_spec / C14_compassDirection_spec (Dialect/Compass.v)',
+                           'p0': [x0, y0], 'p1': [x1, y1], 'implementation_card_comp': [card, comp], 'theorem_card_comp': list(want),
+                           'replay': '%s %d | grep "^%s %s %s %s "' % (exe, R, f[0], f[1], f[2], f[3])})
+    if rc != 0 or n != 9 * (2 * R + 1) ** 2:
+        res.violation({'what': 'the Compass harness did not print the expected %d lines (rc=%s)' % (9 * (2 * R + 1) ** 2, rc),
+                       'stderr': err[-1500:]}, no_input=True)
+        bad += 1
+    res.cov['compass_sweep'] = {'pairs': n, 'mismatches': bad, 'R': R, 'bases': 3, 'scales': [1, 0.125, 1024],
+                                'coincident_pairs_expect_runtime_error': 9}
+    return bad
+
+
 def run(tier):
     res = C.Result(PID, tier, 'other')
-    info = C.prove(res, PID)
+    info = C.prove(res, PID, gen_modules=['Compass'])
+    compass_bad = compass_sweep(res, tier)
     res.assumptions = ['no model of the HOLA pipeline: the theorems are about the oracle hola_ok and the padding arithmetic only; the implementation is sampled',
                        'the dumped doubles are converted to exact rationals (Fraction(float)) and decided exactly by the extracted checker with the tolerances listed under coverage.tolerances',
                        'generator domain: connected simple graphs (no self-loops, no multi-edges), positive node sizes, pairwise distinct start positions in the main stream']
@@ -943,9 +1001,11 @@ def run(tier):
         res.violation({'what': 'doHOLA ended in an exception / failed assertion on %d of %d runs (more than 3%%); the unchanged tree does so on '
                                'about 1%%' % (n_exc, len(cases)), 'exceptions': dict(excs)}, no_input=True)
         new_viol += 1
-    if not info['ok'] and new_viol == 0:
-        res.violation({'what': 'a proof obligation of the oracle / padding theorems no longer checks (only an edit of the Coq files can cause '
-                               'this); the sampled runs found no rejected drawing', 'broken_files': info.get('broken'),
+    if not info['ok'] and new_viol == 0 and compass_bad == 0:
+        res.violation({'what': 'a proof obligation of the oracle / padding / Compass theorems no longer checks (an edit of the Coq files, or a '
+                               'change of Compass::cardinalDirection / compassDirection in ortho.cpp that the translator no longer maps to the '
+                               'proved definitions); the sampled runs and the Compass lattice sweep found no failing input',
+                       'cpp2v_unsupported': info.get('unsupported'), 'broken_files': info.get('broken'),
                        'broken_lemmas': info.get('broken_lemmas'), 'forbidden': info.get('forbidden'), 'coq_log_tail': info['log'][-2500:]},
                       no_input=True)
     return res.finish()
@@ -985,7 +1045,15 @@ META = {
     'property_id': PID,
     'level_claimed': {
         'category': 'other',
-        'text': 'The theorem covers the oracle and the padding arithmetic; the implementation is sampled. Proved in Coq, for all drawings and '
+        'text': 'The theorems cover the oracle, the padding arithmetic and one translated leaf of the pipeline (Compass); the rest of the implementation is sampled. '
+                'Compass (ortho.cpp:52-83, Gen/Compass.v regenerated by tools/cpp2v.py on every run, theorems in Dialect/Compass.v): for ALL rational point pairs '
+                'cardinalDirection returns EAST/WEST/SOUTH/NORTH exactly by dominant axis (ties to x) and sign (C14_cardinalDirection_spec, _range), flips when the pair '
+                'is reversed unless the points coincide (then WEST both ways: _antisym, _coincident), is translation invariant (_translate); compassDirection on '
+                'distinct points is the exact sign pattern of (dx, dy) (C14_compassDirection_spec, _antisym) and agrees with cardinalDirection on cardinal directions, '
+                'otherwise cardinalDirection is one of its two cardinal components (C14_compass_cardinal_consistent); the throw for coincident points is NOT '
+                'translated (hypothesis `distinct`) and is checked by the lattice sweep (compiled functions vs the theorem statements on 9 x (2R+1)^2 pairs, R = 4 / 12), '
+                'which is also the search for a failing input when a Compass proof or translation breaks. '
+                'Oracle and padding: Proved in Coq, for all drawings and '
                 'all tolerance settings: the checker hola_ok is sound AND complete for the declaratively stated output conditions of doHOLA '
                 '(same node ids; same multiset of (source,target) edges; every node keeps its width and height; no two node rectangles have a '
                 'common interior point; every route has >= 2 points, only axis-parallel segments, starts and ends inside-or-on the end nodes\' '
@@ -1022,5 +1090,5 @@ META = {
                   'The tree classifiers read the rank pitch as treeLayoutScalar_rankSep*IEL, absorb NOTHING when two nodes of one rank have overlapping padded boxes (seeded C14-5), and '
                   'tree_rank_collision has the variant :channel_blocked (a third node of the two ranks closes the channel of a diagonal-fallback edge); whole_tree has known-finding rate limits of its own. '
                   'exception:assert:orthogonal.cpp:begin_<_finish is known only with useACAforLinks=0 and nodePaddingScalar>=0.5 (EXC_PREDICATES).',
-    'technique': 'Coq soundness+completeness proof of an output checker (verified oracle) + proved padding arithmetic; implementation sampled by running doHOLA',
+    'technique': 'Coq soundness+completeness proof of an output checker (verified oracle) + proved padding arithmetic + Coq proof over cpp2v-regenerated Gallina of the Compass direction functions (lattice sweep as search); HOLA pipeline sampled by running doHOLA',
 }
